@@ -13,6 +13,9 @@ CHECKS = {
  "C07": dict(engine="iosim", category="exploration", design="DESIGN.md section 5 (C07)", technique="deterministic simulation: save / drop memory / reload durability round trip over the option grid, seeded schedules for parallel saves, injected tensor and FS faults",
    text="Seeded exploration of (initializer kinds x dtypes x sizes x threshold x alignment x shard limit x workers x backend x naming) configurations; every run saves, drops all memory, reloads from disk only and compares names/dtypes/shapes/bytes with harness-generated payloads, then checks the layout rules on the recorded ranges; a fault batch checks tensor-object identity after a raising save.",
    note="harness payloads are the reference; safetensors intra-file order and threshold equality are outside the statement and not checked; parallel saves run on stubbed threading primitives."),
+ "C10": dict(engine="iosim", category="exploration", design="DESIGN.md section 5 (C10)", technique="deterministic simulation of an adversarial file system: generated directory worlds and location strings, byte reads traced at the I/O seam",
+   text="Environment-only: no schedule is involved. Seeded (and, in the thorough tier, enumerated to depth 3) location strings x 13 base-directory spellings x 14 read entry points (incl. onnx_ir.load with bare/relative/symlinked model paths) against a tree with in/out symlinks, chained/absolute links, hard links and prefix siblings; oracle = independent stat/realpath classification + inode-level trace of read/mmap/copy_file_range.",
+   note="static tree during each read (documented TOCTOU window not exercised); fail-closed rejections of allowed locations are not flagged."),
 }
 NA = [
  ("C02", "pure function of the input proto: no schedule, clock, fault, crash point or history for a simulator to vary (DESIGN.md section 7)"),
